@@ -375,7 +375,9 @@ def wLeaf (R : Render) (st : Encoder) (d : Nat) (it : Item) : Encoder × Bool :=
         let s2 := flushXml { s1 with xml := r2.1 }
         ({ s2 with buf := (s2.buf.truncate (l - 1)).append [47, 62] }, true)
 
-/-- `Struct(tag, f)` up to the call of `f`, at depth `d`: the new state and the frame. -/
+/-- `Struct(tag, f)` up to the call of `f`, at depth `d`: the new state and the frame.
+    (Text writer: `NewTextEncoder(hide)` with a registered hidden tag prints `******` instead of calling `f`; `hide`
+    and `hiddenTags` are fixed at construction / init — not state of a call history — and are left out.) -/
 def wOpen (R : Render) (st : Encoder) (d : Nat) (tag : Nat) : Encoder × SFrame × Bool :=
   match st.be with
   | .ttlv =>
